@@ -143,6 +143,9 @@ def run(ctx, F, cg):
         if not found:
             ctx.anchor_failure("R19e", "%s: switch on the kind of a result value before the persist calls" % name)
     ctx.floor("R19e", "entity kinds persisted from result rows", n_e, 2)
+    ctx.rule("R19f", "(shared with C06) what recovery re-inserts is linked like what was created: every relationship creator, insert_recovered_edge included, links both adjacency directions on every path to Ok")
+    from .. import storerules as sr_
+    sr_.creators_link_on_every_path(ctx, F, cg, "R19f")
     # ---- R19c ------------------------------------------------------------------------------------------
     ss = [r for p, r in F.fns.items() if r["unit"] == "samyama.bin" and any(c == PM + "recover" for c in r["calls"])]
     if not ss:
